@@ -8,6 +8,8 @@ open Scrapli Scrapli.SSHConfig Scrapli.Gen.SSHConfig
     L <name> <entries>        entries: "." | e;e;...   e = hosts/hostname/attr,attr,...   (Val: n | s<hex> | i<dec>)
       -> ok <hosts> <hostname> <attr,attr,...>   |  err <kind>
     S <name> <entries>        the hand-written SPECIFICATION (Spec.lookup) on the same input -> same reply format
+    HL <n1,n2,..> <entries>   a HISTORY of lookups on one SSHConfig object (cfgHistory) -> replies joined by " | "
+    HK <n1,n2,..> <lines> <hm4>  history on one SSHKnownHosts object (khHistory); hm4: salt/hash/name/(t|f|x);...
     K <name> <lines> <hm>     lines: "." | l;l;...  l = host/keytype/pubkey ;  hm: "." | salt/hash/(t|f|x);...
       -> ok none | ok <keytype> <pubkey> | err <kind>
   The `mc` parameter of the model is the generated `regexMeta` (the tree's current state).
@@ -65,6 +67,26 @@ def decHM (s : String) : Option ((Str × Str) × Option Bool) :=
     pure ((a, b), r)
   | _ => none
 
+def decHM4 (s : String) : Option ((Str × Str × Str) × Option Bool) :=
+  match s.splitOn "/" with
+  | [a, b, n, r] => do
+    let a ← decStr a
+    let b ← decStr b
+    let n ← decStr n
+    let r ← (if r == "t" then some (some true) else if r == "f" then some (some false)
+             else if r == "x" then some none else none)
+    pure ((a, b, n), r)
+  | _ => none
+
+def showCfg : Except Err Entry → String
+  | .ok e => s!"ok {encStr e.hosts} {encVal e.hostname} {",".intercalate (e.attrs.map encVal)}"
+  | .error k => s!"err {errName k}"
+
+def showKH : Except Err (Option (Str × Str)) → String
+  | .ok none => "ok none"
+  | .ok (some (kt, pk)) => s!"ok {encStr kt} {encStr pk}"
+  | .error k => s!"err {errName k}"
+
 def handleLine (line : String) : String :=
   match line.trimAscii.toString.splitOn " " with
   | ["L", name, entries] =>
@@ -74,6 +96,22 @@ def handleLine (line : String) : String :=
       | .ok e => s!"ok {encStr e.hosts} {encVal e.hostname} {",".intercalate (e.attrs.map encVal)}"
       | .error k => s!"err {errName k}"
     | _, _ => "bad-op"
+  | ["HL", names, entries] =>
+    match (names.splitOn ",").mapM decStr, decList decEntry entries with
+    | some names, some parsed =>
+      match build regexMeta parsed with
+      | .ok d => " | ".intercalate ((cfgHistory regexMeta d names).2.map showCfg)
+      | .error k => " | ".intercalate (names.map fun _ => s!"err {errName k}")
+    | _, _ => "bad-op"
+  | ["HK", names, lines, hm] =>
+    match (names.splitOn ",").mapM decStr, decList decKH lines, decList decHM4 hm with
+    | some names, some lines, some tbl =>
+      let hmf : Str → Str → Str → Option Bool := fun salt hash name =>
+        match tbl.lookup (salt, hash, name) with
+        | some r => r
+        | none => some false
+      " | ".intercalate ((khHistory hmf (khBuild lines) names).2.map showKH)
+    | _, _, _ => "bad-op"
   | ["S", name, entries] =>
     match decStr name, decList decEntry entries with
     | some name, some parsed =>
